@@ -112,6 +112,41 @@ def experiment(r, kind):
             return None
         wrap = " + 0" if op2 in ("<", ">=", "==") else ""
         return (f"({a} {op1} {b}) {op2} {c}", f"db.Setting = (({lit(a)} {op1} {lit(b)}) {op2} {lit(c)}){wrap}\n", f"db.Setting = ((stack[0] {op1} stack[1]) {op2} stack[2]){wrap}\n", {0: a, 1: b, 2: c}, True)
+    if kind == "mixed":
+        # some operands are literals (or constants held in variables), the others are loaded at run time: a partly constant
+        # chain may be regrouped / partly folded by the transpiler — the value must be that of the fully run-time expression
+        op1, op2 = r.choice(["+", "-", "*", "/"]), r.choice(["+", "-", "*", "/"])
+        a, b, c = operand(), operand(), operand()
+        left = r.random() < 0.7
+        try:
+            if left:
+                inner = eval(f"({a!r}) {op1} ({b!r})")
+                ok = in_range(op1, a, b) and in_range(op2, inner, c)
+            else:
+                inner = eval(f"({b!r}) {op2} ({c!r})")
+                ok = in_range(op2, b, c) and in_range(op1, a, inner)
+        except Exception:
+            return None
+        if not ok:
+            return None
+        const = [r.random() < 0.6 for _ in range(3)]
+        if all(const) or not any(const):
+            const = [False, True, True]
+        named = r.random() < 0.3
+        pre = ""
+        names = []
+        for i, (v, k) in enumerate(zip((a, b, c), const)):
+            if k and named:
+                pre += f"K{i} = {lit(v)}\n"
+                names.append(f"K{i}")
+            elif k:
+                names.append(lit(v))
+            else:
+                names.append(f"stack[{i}]")
+        rt = [f"stack[{i}]" for i in range(3)]
+        shape = (lambda x, y, z: f"(({x} {op1} {y}) {op2} {z})") if left else (lambda x, y, z: f"({x} {op1} ({y} {op2} {z}))")
+        return (f"{shape(a, b, c)} with operands {[i for i, k in enumerate(const) if k]} constant", pre + f"db.Setting = {shape(*names)}\n", f"db.Setting = {shape(*rt)}\n",
+                {0: a, 1: b, 2: c}, True)
     if kind == "unary":
         a = operand()
         u = r.choice(["-", "not "])
@@ -209,7 +244,7 @@ def run(tier: str, seed: int) -> int:
             if m is None or m["opcode"] != opcode or m["value"] != int(real):
                 diffs.append({"stream": "pyEval vs get_unop_instruction", "op": op, "a": a, "model": m, "real": [opcode, repr(real)]})
     # -- the experiment ----------------------------------------------------------------------------------------------------------
-    kinds = ["binop"] * 8 + ["nested"] * 3 + ["unary", "math", "math", "named", "variable", "function", "list", "hash", "clamp", "reassign"]
+    kinds = ["binop"] * 8 + ["nested"] * 3 + ["mixed"] * 4 + ["unary", "math", "math", "named", "variable", "function", "list", "hash", "clamp", "reassign"]
     n = 900 if tier == "quick" else 40000
     opts_list = [whole.default_opts(append_version=False), whole.default_opts(append_version=False, inline_functions=False), whole.default_opts(append_version=False, compact=True)]
     done = 0
